@@ -7,6 +7,8 @@
   by-value composites and write-through references.  The lowering chain of the compiler itself is not modelled.
 -/
 import FerretVerif.Proofs.CoreSem
+import FerretVerif.Proofs.QbeSem
+import FerretVerif.Gen.QbeSel
 
 namespace FerretVerif.C01
 open FerretVerif.Core
@@ -79,5 +81,65 @@ theorem ref_write_through {l : Loc} {nv : Val} {s s' : St} (k : Nat)
 
 -- concrete instances
 example : wrapInt 32 true (2147483647 + 1) = -2147483648 ∧ wrapInt 8 false (200 + 100) = 44 ∧ wrapInt 8 true 300 = 44 := by decide
+
+/-! ### instruction selection: the regenerated table `Gen.qbeSel`
+
+`lib/qbesel.py` compiles, with the compiler of the current tree, one function per (operator, integer type) and per
+(source type, target type) cast, and writes the IL the emitter produced for it into `Gen/QbeSel.lean`.  The theorems below are
+re-checked against that table on every run: every row has a shape for which `Proofs/QbeSem.lean` proves, for ALL operand values
+of the type, that the sequence computes — in the QBE semantics of `Model/QbeSem.lean`, on canonical (sign- or zero-extended)
+temporaries — the canonical temporary of the source-level result (wrapping at the declared width, truncating division,
+value order for comparisons, wrap-to-target for casts). -/
+section Selection
+open FerretVerif.QbeSem
+
+theorem sel_table_known_shapes : ∀ r ∈ Gen.qbeSel, rowOk r = true := by decide +kernel
+
+theorem sel_table_well_formed : ∀ r ∈ Gen.qbeSel, r.src ∈ legalTys ∧ r.dst ∈ legalTys ∧ (r.kind ≠ .cast → r.dst = r.src) := by decide +kernel
+
+def hasRow (k : Kind) (op : String) (s d : QbeSem.Ty) : Bool := Gen.qbeSel.any fun r => r.kind == k && r.op == op && r.src == s && r.dst == d
+
+theorem sel_table_complete :
+    (∀ t ∈ legalTys, ∀ op ∈ ["add", "sub", "mul", "div", "rem"], hasRow .bin op t t = true) ∧
+    (∀ t ∈ legalTys, ∀ op ∈ cmpOps, hasRow .cmp op t t = true) ∧
+    (∀ t ∈ signedTys, hasRow .neg "neg" t t = true) ∧
+    (∀ s ∈ legalTys, ∀ d ∈ legalTys, s ≠ d → hasRow .cast "cast" s d = true) := by decide +kernel
+
+theorem sel_table_correct (r : Row) (hr : r ∈ Gen.qbeSel) (args : List Int) (hin : ∀ a ∈ args, r.src.inRange a) (v : Nat)
+    (hv : rowSpec r args = some v) : exec (args.map (canon r.src)) [] r.seq = some v :=
+  have wf := sel_table_well_formed r hr
+  row_correct r (sel_table_known_shapes r hr) wf.1 wf.2.1 wf.2.2 args hin v hv
+
+/-- the same statement read at the level of values, for the binary operators: on in-range operands the selected sequence
+    yields the canonical temporary of `specBin` (which IS the reference semantics' operator, see `spec_is_reference`) -/
+theorem sel_binary_correct (r : Row) (hr : r ∈ Gen.qbeSel) (hk : r.kind = .bin) (a b w : Int)
+    (ha : r.src.inRange a) (hb : r.src.inRange b) (hw : specBin r.op r.src a b = some w)
+    (hno : ¬ ((r.op = "div" ∨ r.op = "rem") ∧ r.src.signed = true ∧ overflows r.src a b)) :
+    exec [canon r.src a, canon r.src b] [] r.seq = some (canon r.src w) := by
+  have := sel_table_correct r hr [a, b] (by intro x hx; simp at hx; rcases hx with rfl | rfl <;> assumption) (canon r.src w)
+    (by simp only [rowSpec, hk, if_neg hno, hw, Option.map_some])
+  simpa using this
+
+/-- the specification used for the table is the reference interpreter's operator: `specBin` wraps the same mathematical
+    result with the same wrap as `evalIntBin` (compare `arith_wraps`, `div_truncates` above) -/
+theorem spec_wrap_is_reference (bits : Nat) (s : Bool) (v : Int) : (⟨bits, s⟩ : QbeSem.Ty).wrap v = wrapInt bits s v := rfl
+theorem spec_is_reference (bits : Nat) (s : Bool) (a b : Int) (hb : b ≠ 0) :
+    specBin "add" ⟨bits, s⟩ a b = some (wrapInt bits s (a + b)) ∧
+    specBin "sub" ⟨bits, s⟩ a b = some (wrapInt bits s (a - b)) ∧
+    specBin "mul" ⟨bits, s⟩ a b = some (wrapInt bits s (a * b)) ∧
+    specBin "div" ⟨bits, s⟩ a b = some (wrapInt bits s (Int.tdiv a b)) ∧
+    specBin "rem" ⟨bits, s⟩ a b = some (wrapInt bits s (Int.tmod a b)) := by
+  refine ⟨rfl, rfl, rfl, ?_, ?_⟩ <;> simp [specBin, hb] <;> rfl
+
+/-- non-vacuity and sharpness: i8 127 + 1 must come out as the canonical temporary of -128; the bare 32-bit `add`
+    without the re-normalising `shl`/`sar` pair leaves 128 in the temporary -/
+example : rowSpec ⟨.bin, "add", ⟨8, true⟩, ⟨8, true⟩, []⟩ [127, 1] = some (canon ⟨8, true⟩ (-128)) := by decide
+theorem unnormalised_add_is_wrong :
+    exec [canon ⟨8, true⟩ 127, canon ⟨8, true⟩ 1] [] [⟨.w, "add", .param 0, .param 1⟩] ≠ some (canon ⟨8, true⟩ (-128)) := by decide
+/-- the excluded point: the machine's signed division has no result for MIN / -1 at the operation's width -/
+theorem min_div_minus_one_traps :
+    exec [canon ⟨32, true⟩ (-2147483648), canon ⟨32, true⟩ (-1)] [] [⟨.w, "div", .param 0, .param 1⟩] = none := by decide
+
+end Selection
 
 end FerretVerif.C01
